@@ -19,6 +19,7 @@ CONSTANTS
   ReadMax,       \* read buffer sizes
   Closers,       \* endpoints whose application may shut down / drop streams
   MuxDroppers,   \* endpoints whose application may drop the Multiplexor
+  Cancellers,    \* endpoints whose application may give up a pending stream / bind request
   DgSenders, MaxDgrams,
   Binders, MaxBinds,
   Faults,        \* subset of {"cutsrc","endsrc","cutsink"}
@@ -66,6 +67,7 @@ ADropStream(e) ==
   /\ e \in Closers
   /\ \E h \in AppHs(e) : st' \in DropStream(st, e, h)
 ADropMux(e) == e \in MuxDroppers /\ st' \in DropMux(st, e)
+ACancel(e) == e \in Cancellers /\ \E c \in DOMAIN st.calls[e] : st' \in CancelCall(st, e, c)
 ASendDgram(e) ==
   /\ e \in DgSenders /\ Len(st.dgSent[e]) < MaxDgrams
   /\ \E host \in Hosts : st' \in SendDgram(st, e, 0, host, 9, "d", FALSE)
@@ -131,7 +133,7 @@ AAdv ==
 Next ==
   \/ \E e \in E :
        \/ AOpenStart(e) \/ AOpenPoll(e) \/ AAccept(e) \/ AWrite(e) \/ AWriteZero(e) \/ ARead(e)
-       \/ AShutdown(e) \/ ADropStream(e) \/ ADropMux(e)
+       \/ AShutdown(e) \/ ADropStream(e) \/ ADropMux(e) \/ ACancel(e)
        \/ ASendDgram(e) \/ AGetDgram(e)
        \/ ABindStart(e) \/ ABindPoll(e) \/ ANextBind(e) \/ ABindReply(e) \/ ABindDrop(e)
        \/ TUnblock(e) \/ TRecv(e) \/ TSend(e) \/ TSinkErr(e) \/ TDrop(e) \/ TWd(e)
@@ -219,6 +221,7 @@ TinyCfg   == {MkCfg(1, 1, 1, 1, 0, 1)}
 OpenCfgs  == {MkCfg(1, 1, ac, 1, 0, rt) : ac \in 1..1, rt \in 1..2}
 CloseCfgs == {MkCfg(r, 1, 1, 1, 0, 1) : r \in 1..2}
 DgCfgs    == {MkCfg(1, 1, 1, dg, 0, 1) : dg \in 1..2}
+CancelCfgs == {MkCfg(1, 1, 1, 1, 1, 2)}
 BindCfgs  == {MkCfg(1, 1, 1, 1, bc, 1) : bc \in 0..2}
 LiveCfgs  == {MkCfg(r, t, 1, 1, 0, 1) : r \in 1..3, t \in 1..4}
 =============================================================================
